@@ -63,6 +63,11 @@ func (s *_watchSession) done() <-chan struct{} {
 }
 
 func (s *_watchSession) stop() {
+	// a session that is still connecting sits inside client.Watch() and does
+	// not read the shutdown request: cancel its context so that the call
+	// returns, otherwise the caller (the watcher) blocks here for as long as
+	// the connection attempt hangs.
+	s.cancel()
 	s.lc.ShutdownAsync(nil)
 }
 
